@@ -147,6 +147,31 @@ def l1_search(scratch, depth):
 
 
 # ------------------------------------------------------------------------------------------------ L2 pipeline
+CDS_SHIFT = 40
+
+
+def add_cds_records(w, gtf):
+    """append CDS / UTR records to the reference: each one carries the exon_id of the exon it lies in (as in Ensembl files); the CDS of
+    the second exon starts CDS_SHIFT bases inside it"""
+    g1 = [g for g in w["genes"] if g["id"] == "G1"][0]
+    lines = []
+    for t in g1["transcripts"]:
+        for i, (s_, e_) in enumerate(t["exons"]):
+            eid = t["exon_ids"]["%d-%d" % (s_, e_)]
+            a = 'gene_id "G1"; transcript_id "%s"; exon_number "%d"; exon_id "%s";' % (t["id"], i + 1, eid)
+            cs = s_ + CDS_SHIFT if (s_, e_) == tuple(W_slot(1000, 1)) else s_
+            lines.append("\t".join([g1["chr"], "SYN", "CDS", str(cs), str(e_), ".", g1["strand"], "0", a + ' protein_id "P%s";' % t["id"]]))
+            if cs > s_:
+                lines.append("\t".join([g1["chr"], "SYN", "five_prime_utr", str(s_), str(cs - 1), ".", g1["strand"], ".", a]))
+    with open(gtf, "a") as f:
+        f.write("\n".join(lines) + "\n")
+
+
+def W_slot(base, i):
+    from vlib import worlds as W
+    return W.slot(base, i)
+
+
 def pipeline_world(variant):
     from vlib import syn, worlds as W
     w = W.base_world(2, 9000)
@@ -206,6 +231,17 @@ def pipeline_world(variant):
         W.add_sites_for_blocks(w, "chr1", nov_e, "+")
         for i in range(5):
             reads.append(W.read_of("ne_%d" % i, "chr1", nov_e))
+    if variant == "cds":
+        # an Ensembl-like reference: every exon of G1 has an exon_id, and the CDS records (written by pipeline_case) repeat the id of
+        # the exon they lie in; a novel isoform uses an acceptor exactly at the CDS start inside the second exon
+        g1 = [g for g in w["genes"] if g["id"] == "G1"][0]
+        for t in g1["transcripts"]:
+            t["exon_ids"] = dict(("%d-%d" % (s_, e_), "ENSE%08d" % s_) for s_, e_ in t["exons"])
+        nov_f = W.exons(1000, [0, 1, 2, 3, 4])
+        nov_f[1][0] += CDS_SHIFT
+        W.add_sites_for_blocks(w, "chr1", nov_f, "+")
+        for i in range(6):
+            reads.append(W.read_of("nf_%d" % i, "chr1", nov_f))
     W.dedup_sites(w)
     w["reads"] = reads
     if variant == "dotted":
@@ -272,6 +308,8 @@ def pipeline_case(args):
     paths = syn.materialise(w, d)
     errs = []
     gtf = paths["gtf"]
+    if variant == "cds":
+        add_cds_records(w, gtf)
     ref_exon = {}
     nruns = 0
     novel_total = 0
@@ -385,6 +423,8 @@ def run(ctx):
         for s in strategies:
             jobs.append((variant, s, 2 if quick else 3, ctx.scratch))
     jobs.append(("dotted", "all", 2 if quick else 3, ctx.scratch))
+    for s in strategies:
+        jobs.append(("cds", s, 2, ctx.scratch))
     # histories: the annotation of iteration i+1 is the extended annotation of iteration i, obtained from ANOTHER read set, so that ids
     # generated earlier meet novel transcripts of the same loci generated later
     sets = ("R0", "R1", "R2")
